@@ -119,7 +119,9 @@ def decodeUncompressed (T : Tables) (edition : Nat) (enforce : Enforce) (fuel : 
       match fin with
       | .tooLong => .ok ({ st1 with early := true }, (filled :: acc).reverse)
       | .shortRead =>
-        let keep := lenConst ∨ from_ ≤ 0 ∨ (from_ ≤ (j : Int) + 1 ∧ (j : Int) + 1 ≤ to)
+        -- the C sets `j = nbsubset` to leave the loop and then tests `j+1` against the requested range:
+        -- `nbsubset + 1 <= subset_to` never holds (`to` is clamped to the subset count by the caller)
+        let keep := lenConst ∨ from_ ≤ 0
         .ok (st1, (if keep then filled :: acc else acc).reverse)
       | .complete =>
         let st2 := { st1 with s4len := st1.s4len + (if lenConst then nbitsSeq else estimateSeqLength T fuel nodes) }
